@@ -138,17 +138,73 @@ def campaign_keys(ck: Check, quick: bool) -> None:
     camp.wall_s = time.time() - t0
 
 
+def real_sanitisers() -> list[tuple[str, object, bool]]:
+    """(kind, the REAL bound get_field_extra_key of a JsonSchemaParser built for that kind, can_have_extra_keys)"""
+    from datamodel_code_generator import DataModelType
+    from datamodel_code_generator.format import PythonVersion
+    from datamodel_code_generator.model import get_data_model_types
+    from datamodel_code_generator.parser.jsonschema import JsonSchemaParser
+
+    out = []
+    for kind in e2e.MODEL_KINDS:
+        t = get_data_model_types(DataModelType(kind), PythonVersion.PY_312)
+        p = JsonSchemaParser("{}", data_model_type=t.data_model, data_model_root_type=t.root_model, data_model_field_type=t.field_model,
+                             data_type_manager_type=t.data_type_manager)
+        out.append((kind, p.get_field_extra_key, bool(getattr(t.field_model, "can_have_extra_keys", False))))
+    return out
+
+
+def campaign_sanitiser(ck: Check, n: int) -> None:
+    """The behaviour behind the shape obligation: the REAL function bound to get_field_extra_key, for every kind whose field
+    model writes extra keys as keyword names, returns an identifier that is not a keyword (what C07 proves of the resolver
+    the obligation says it is) — for the whole key family and random adversarial keys."""
+    from .. import gens
+
+    camp = ck.campaign("sanitiser: the real JsonSchemaParser.get_field_extra_key of every kind with can_have_extra_keys returns an identifier that is no keyword "
+                       "(the value class field_extra_key_sanitiser_resolves assigns to it)")
+    t0 = time.time()
+    rng = ck.rng.fork("sanitiser")
+    alphabet = [sorted(keyword.kwlist), sorted(getattr(keyword, "softkwlist", [])), ["x-", "-", " ", "_", "__", ".", "$"], list("abcXYZ019"), gens.NONASCII, gens.QUOTES]
+    keys = all_keys() + [gens.adversarial(rng, 3, alphabet) for _ in range(n)]
+    bad: list[str] = []
+    for kind, fn, keyword_names in real_sanitisers():
+        camp.hit(f"kind:{kind}:{'keyword_names' if keyword_names else 'dict_keys'}")
+        if not keyword_names:
+            continue
+        for key in keys:
+            camp.evaluations += 1
+            camp.hit("key:" + trigger_of(key))
+            try:
+                got = fn(key)
+            except Exception as e:  # noqa: BLE001
+                got = f"raise {type(e).__name__}"
+                camp.hit("raises")
+                continue
+            if got != key:
+                camp.distinct.add((kind, key))
+            if not (isinstance(got, str) and got.isidentifier() and not keyword.iskeyword(got)):
+                ck.disagree(camp, {"key": key, "kind": kind}, "an identifier that is not a keyword", got)
+                if key not in bad:
+                    bad.append(key)
+            elif len(camp.samples) < 3 and got != key:
+                camp.samples.append({"key": key, "kind": kind, "sanitised": got})
+    ck.notes["bad_extra_keys"] = bad[:40]
+    camp.wall_s = time.time() - t0
+
+
 SANITISER_THEOREMS = {"field_extra_key_sanitiser_resolves", "field_extra_keys_sanitised", "class_keyword_values_safe"}
 
 
 def search(ck: Check) -> None:
     """Failing-input search when the sanitiser obligation is broken: every key of the family × every kind × every
     option vector, formatters off, plus keys derived from the source text of the non-resolver return paths."""
-    if ck.failures or not (set(ck.broken) & SANITISER_THEOREMS):
+    bad = ck.notes.get("bad_extra_keys") or []
+    if ck.failures or not (set(ck.broken) & SANITISER_THEOREMS or bad):
         return
-    camp = ck.campaign("search: extra keys × kinds × option vectors after a broken sanitiser obligation")
+    camp = ck.campaign("search: extra keys × kinds × option vectors after a broken sanitiser obligation / correspondence")
     known = schema_keywords()
-    keys = [k for k in all_keys() if k not in known]
+    # first the keys on which the real sanitiser returned something that is no usable keyword name
+    keys = [k for k in dict.fromkeys(bad + all_keys()) if k not in known]
     for model in ["pydantic.BaseModel"] + [m for m in e2e.MODEL_KINDS if m != "pydantic.BaseModel"]:
         for key in keys:
             for vec in OPTION_VECTORS:
